@@ -32,7 +32,9 @@ def menu(tier):
     for strat in ('hierarchical', 'hybrid'):
         for j in (1, 2):
             scn.append(S.mk(f'shared-copy/{strat}/j{j}', shared,
-                            ('anyof', ['( g ( f a ) b', '( g v b']), strat,
+                            ('anyof', ['( g ( f a ) b',
+                                       '( v ( f a ) ) ( w ( f b ) ) ) ( g v b']),
+                            strat,
                             j, [], budget=b if j > 1 else 0))
     for inp, ms in (('micro', 'core'), ('micro2', 'core'),
                     ('micro2', 'erase'), ('micro', 'boolean')):
@@ -44,6 +46,9 @@ def menu(tier):
             scn.append(S.mk(f'{inp}/adversarial/A1s1/{strat}/j2/{ms}', inp,
                             ('adversarial', ), strat, 2, S.MUTATOR_SETS[ms],
                             budget=1, accept=1))
+    for x in scn:
+        if x.get('budget', 0) > 0 and x['model'][0] != 'adversarial':
+            x['prune'] = True
     return scn
 
 
